@@ -19,6 +19,7 @@ import (
 	"strings"
 
 	sdkmath "cosmossdk.io/math"
+	"cosmossdk.io/x/feegrant"
 	sdk "github.com/cosmos/cosmos-sdk/types"
 	banktypes "github.com/cosmos/cosmos-sdk/x/bank/types"
 	"github.com/cosmos/gogoproto/proto"
@@ -31,7 +32,8 @@ import (
 )
 
 type params struct {
-	Len int `json:"len"`
+	Len  int    `json:"len"`
+	Mode string `json:"mode,omitempty"` // "" = history, "grant-probe" = informational probe
 }
 
 const (
@@ -127,6 +129,10 @@ type histStats struct {
 func run(c fw.Case, tier string, rec *fw.Recorder) {
 	var p params
 	c.Decode(&p)
+	if p.Mode == "grant-probe" {
+		runGrantProbe(c, rec)
+		return
+	}
 	r := c.Rand()
 
 	vals := chain.DefaultValidators("c16", []int64{10_000_000})
@@ -254,7 +260,7 @@ func run(c fw.Case, tier string, rec *fw.Recorder) {
 		for _, d := range created {
 			createdBy[d] = true
 		}
-		kindsFor := func(denom string) string {
+		kindsFor := func(denom string, prefer ...string) string {
 			set := map[string]struct{}{}
 			collect := func(onlyOK, match bool) {
 				for i, tx := range b.Txs {
@@ -288,9 +294,17 @@ func run(c fw.Case, tier string, rec *fw.Recorder) {
 					collect(false, false)
 				}
 			}
-			var ks []string
+			var ks, pk []string
 			for k := range set {
 				ks = append(ks, k)
+				for _, p := range prefer {
+					if p == k {
+						pk = append(pk, k)
+					}
+				}
+			}
+			if len(pk) > 0 {
+				ks = pk
 			}
 			sort.Strings(ks)
 			return prefix + strings.Join(ks, "+")
@@ -534,6 +548,7 @@ func cases(tier string, seed int64) []fw.Case {
 	for i := 0; i < n; i++ {
 		cs = append(cs, fw.MkCase(fmt.Sprintf("hist-%03d", i), seed*1000003+int64(i)*7919+16, params{Len: l}))
 	}
+	cs = append(cs, fw.MkCase("grant-probe", 0, params{Mode: "grant-probe"}))
 	return cs
 }
 
@@ -566,4 +581,53 @@ func init() {
 		},
 		TimeoutS: 600,
 	})
+}
+
+// runGrantProbe is NOT part of the verdict. The property's quantifier ranges over the five
+// token-factory messages; fee grants are outside it (see Assumptions). Paloma's ante decorator
+// lets an account that holds a fee grant from X sign messages whose Metadata.Creator is X. This
+// probe records (counters + sample only) what that means for a factory token, so that the limit
+// of the "held" verdict is visible in the evidence file.
+func runGrantProbe(c fw.Case, rec *fw.Recorder) {
+	vals := chain.DefaultValidators("c16", []int64{10_000_000})
+	a := chain.NewAccount("granter", "c16/probe/a")
+	b := chain.NewAccount("grantee", "c16/probe/b")
+	coins := sdk.NewCoins(sdk.NewInt64Coin(chain.Denom, richFunds))
+	ch := chain.New(chain.Config{Validators: vals, Users: map[*chain.Account]sdk.Coins{a: coins, b: coins}})
+	defer ch.Close()
+	ch.NextBlock()
+	selfA := valsettypes.MsgMetadata{Creator: a.Bech, Signers: []string{a.Bech}}
+	denom := "factory/" + a.Bech + "/probe"
+	steps := []string{}
+	note := func(what string, r chain.TxResult) bool {
+		steps = append(steps, fmt.Sprintf("%s -> code %d %s", what, r.Code, short(r.Log)))
+		return r.OK()
+	}
+	if !note("granter creates probe", ch.Deliver(a, &tftypes.MsgCreateDenom{Subdenom: "probe", Metadata: selfA})) {
+		rec.Count("grant_probe_setup_failed", 1)
+		return
+	}
+	note("granter mints 100", ch.Deliver(a, &tftypes.MsgMint{Amount: sdk.NewInt64Coin(denom, 100), Metadata: selfA}))
+	asA := valsettypes.MsgMetadata{Creator: a.Bech, Signers: []string{b.Bech}}
+	before := note("grantee-to-be signs change-admin as granter BEFORE any grant", ch.Deliver(b, &tftypes.MsgChangeAdmin{Denom: denom, NewAdmin: b.Bech, Metadata: asA}))
+	grant, err := feegrant.NewMsgGrantAllowance(&feegrant.BasicAllowance{}, a.Addr, b.Addr)
+	if err != nil || !note("granter grants a basic fee allowance to grantee", ch.Deliver(a, grant)) {
+		rec.Count("grant_probe_setup_failed", 1)
+		return
+	}
+	burn := note("grantee signs burn of 40 from the granter's balance as granter", ch.Deliver(b, &tftypes.MsgBurn{Amount: sdk.NewInt64Coin(denom, 40), Metadata: asA}))
+	after := note("grantee signs change-admin (new admin = grantee) as granter", ch.Deliver(b, &tftypes.MsgChangeAdmin{Denom: denom, NewAdmin: b.Bech, Metadata: asA}))
+	am, _ := ch.App.TokenFactoryKeeper.GetAuthorityMetadata(ch.Ctx(), denom)
+	rec.Count("grant_probe_runs", 1)
+	if before {
+		rec.Count("grant_probe_accepted_without_grant", 1)
+	}
+	if burn {
+		rec.Count("grant_probe_grantee_burned_granters_balance", 1)
+	}
+	if after && am.Admin == b.Bech {
+		rec.Count("grant_probe_grantee_took_admin_role", 1)
+	}
+	rec.Sample(map[string]any{"case": c.Name, "not_part_of_verdict": true, "steps": steps, "admin_afterwards": am.Admin,
+		"granter": a.Bech, "grantee": b.Bech, "granter_balance_afterwards": ch.Balance(a.Addr, denom).String()})
 }
